@@ -15,7 +15,8 @@ def docCapacity (doc : List Bytes) : Nat :=
   let total := sumNat (doc.map List.length)
   if total = 0 then 4096 else total
 
-/-- Loop of `Rodeo::deserialize` / `RodeoReader::deserialize` (with the repairs for D3 and D7). -/
+/-- Loop of `Rodeo::deserialize` / `RodeoReader::deserialize` (with the repairs for D3 and D7).
+The table is created `with_capacity(len)`, so it never grows here: growth oracle `false`. -/
 def deListLoop (env : Env) (N : Nat) : List Bytes → Nat → Table → List StrRef → Arena → Out (Table × List StrRef × Arena)
   | [], _, t, ss, a => .ok (t, ss, a)
   | x :: rest, idx, t, ss, a =>
@@ -28,7 +29,7 @@ def deListLoop (env : Env) (N : Nat) : List Bytes → Nat → Table → List Str
         | none => .err .serde                              -- more strings than the key type can index
         | some _ =>
           let ss' := ss ++ [ref]
-          match tableInsert t (env.hash x) idx true (rehashFn env a'.read ss') with
+          match tableInsert t (env.hash x) idx false (rehashFn env a'.read ss') with
           | .ok t' => deListLoop env N rest (idx + 1) t' ss' a'
           | .err e => .err e
           | .panic => .panic
